@@ -232,6 +232,19 @@ def run(ctx):
     for name, data in c15_docs.escaping_7z_docs(_abs_dir(sc / "docs.json")).items():   # stream-less entries that
         (docdir / name).write_bytes(data)                                               # name a place outside
         docs["gen:" + name] = {"path": str(docdir / name), "cls": "plain", "f": "", "g": []}
+    round5 = dict(c15_docs.office_docs())                      # formula-heavy docx/pptx, nested / large tables
+    round5.update(c15_docs.odf_docs())                         # ODF failing mid-paragraph + small healthy ODF
+    from .. import docrun                                       # (read-only reuse) one rich document per format
+    for fmt_ in ("doc", "docx", "odt", "html", "mhtml", "epub", "rtf", "pptx", "odp", "odg", "xls", "xlsx", "ods", "pdf",
+                 "txt", "md", "csv", "tsv", "json", "ppt", "odf"):
+        for seed_ in (0, 1):
+            try:
+                round5[f"rich-{seed_}.{fmt_}"] = docrun.render(docrun.rich_doc(fmt_, seed_), fmt_)
+            except Exception as e:  # noqa: a writer of another property changed: not this check's business
+                ctx.log(f"rich document {fmt_}/{seed_} not rendered: {e!r}")
+    for name, data in round5.items():
+        (docdir / name).write_bytes(data)
+        docs["gen:" + name] = {"path": str(docdir / name), "cls": "plain", "f": "", "g": []}
     round4 = dict(c15_docs.markup_docs())                      # sloppy / clean html, mhtml, epub
     round4.update(c15_docs.repacked_variants(res_root))        # second documents sharing all part names
     round4["enc-header.7z"] = c15_docs.make_7z_encrypted_header()      # refused: header flagged 7zAES
@@ -278,10 +291,22 @@ def run(ctx):
             (sc / "aes.in.json").write_text(json.dumps({"seed": ctx.seed, "random": 8 if ctx.thorough else 2,
                                                         "docs": [docs["aesimg1"]["path"], docs["aesimg2"]["path"]]}))
             f_aes = ex.submit(_spawn, ["aes", sc / "aes.in.json", sc / "aes.out.json"])
+        f_conc = []
+        if not partial:
+            fams = {}
+            for d in sorted(docs):
+                if docs[d]["cls"] in ("plain", "font") and "deepspans" not in d:
+                    fams.setdefault(_family(docs[d]["path"]), {})[d] = docs[d]["path"]
+            for fam, members in sorted(fams.items()):
+                (sc / f"conc-{fam}.in.json").write_text(json.dumps({
+                    "seed": ctx.seed, "family": fam, "docs": members, "threads": 6, "reps": 3 if ctx.thorough else 2}))
+                f_conc.append((fam, ex.submit(_spawn, ["conc", sc / f"conc-{fam}.in.json", sc / f"conc-{fam}.out.json"])))
         f_base = [ex.submit(_spawn, ["base", sc / "docs.json", d, sc / f"tmp-base-{i}"])
                   for i, d in enumerate(doc_ids)]
-        for f in f_replay + f_stress + ([f_aes] if f_aes else []):
+        for f in f_replay + f_stress + ([f_aes] if f_aes else []) + [f for _, f in f_conc]:
             f.result()
+    conc_out = {fam: json.loads((sc / f"conc-{fam}.out.json").read_text()) for fam, _ in f_conc}
+    if True:
         base_out = [json.loads(f.result().stdout.strip().splitlines()[-1]) for f in f_base]
     lap("replay, stress and baseline workers")
     baseline = dict(zip(doc_ids, base_out))
@@ -489,6 +514,17 @@ def run(ctx):
             if ctx.thorough:
                 ids += bad + good
         hjobs.append({"id": "by-format", "docs": ids})
+        # A;B;A within each extractor family (formats sharing helper modules): state leaked by B shows in the second A
+        fam_ids = {}
+        for d in everything:
+            if docs[d]["cls"] != "fail":
+                fam_ids.setdefault(_family(docs[d]["path"]), []).append(d)
+        ids = []
+        for fam in sorted(fam_ids):
+            g = sorted(fam_ids[fam], key=lambda d: (not d.startswith("gen:"), d))
+            for i in range(len(g) if ctx.thorough else min(len(g), 14)):
+                ids += [g[i], g[(i + 1) % len(g)], g[i]]
+        hjobs.append({"id": "a-b-a", "docs": ids})
     (sc / "docs.json").write_text(json.dumps(docs))
     with ThreadPoolExecutor(nproc + 4) as ex:
         fs = []
@@ -503,6 +539,7 @@ def run(ctx):
     # documents whose observed signature differs from the isolated one somewhere: is the isolated result
     # itself reproducible?  (two more fresh processes; e.g. xlsx "created" = now is not: C06 territory)
     suspects = sorted({x["did"] for o in h_raw for x in o["obs"] if x["sig"] != baseline[x["did"]]["sig"]}
+                      | {d for o in conc_out.values() for _r, _t, d, s_ in o["sigs"] if s_ != baseline[d]["sig"]}
                       | {d for o in s_meta for _t, d, s_ in o["sigs"] if s_ != baseline[d]["sig"]})
     unstable = []
     if suspects:
@@ -529,6 +566,30 @@ def run(ctx):
                         observed=diff[0][2], where="pdf_extractor.py:_extract_text_with_spacing")
         else:
             v.ok(len(sigs))
+    # every extractor family: threads on DIFFERENT documents of one family, free-running with a 1 us switch
+    # interval and a barrier before each repetition; every result against the isolated baseline
+    for fam, o in sorted(conc_out.items()):
+        sigs = [x for x in o["sigs"] if x[2] not in unstable]
+        diff = [x for x in sigs if x[3] != baseline[x[2]]["sig"]]
+        if diff:
+            r0, t0_, d0, s0 = diff[0]
+            v.violation(what=f"family {fam}: {len(diff)} of {len(sigs)} extractions running concurrently with other "
+                             f"documents of the family differ from the isolated result, e.g. round {r0} "
+                             f"(documents {o['rounds'][r0]}) thread {t0_} document {d0}",
+                        case={"family": fam, "round": o["rounds"][r0]}, expected=baseline[d0]["sig"], observed=s0,
+                        where="module-level state shared by the threads of one extractor family")
+        else:
+            v.ok(len(sigs))
+            ev.nontrivial(("conc", fam))
+        for d0, s1, s2 in o["twin"][:MAX_REPORT]:
+            v.violation(what=f"document {d0} extracted while another extraction of the same bytes is still in flight "
+                             f"(its generator suspended) gives a different result than that one: object identity / "
+                             f"in-flight state leaks into the result ({len(o['twin'])} documents of family {fam})",
+                        case={"family": fam, "doc": d0}, expected=s1, observed=s2,
+                        where="extractor of that format")
+        if o["errors"]:
+            v.violation(what=f"family {fam}: worker thread crashed: {o['errors'][:2]}", case={"family": fam})
+        ev.replayed(len(sigs))
     # events of the recorded histories (projection: class of the document, outcome, resolved glyph ids,
     # digest equal to the isolated one)
     h_traces = []
@@ -668,9 +729,6 @@ def _worker_replay(inp, out):
     Path(out).write_text(json.dumps(traces))
 
 
-_ADDR = re.compile(r"(IndirectObject\(\d+, \d+, )\d+\)")
-
-
 def _signature(path):
     """(signature, first result | None, exception | None) of one extraction through the public entry point"""
     import sharepoint2text
@@ -679,7 +737,6 @@ def _signature(path):
     except Exception as e:  # noqa: failing inputs are part of the workload
         return f"EXC:{type(e).__name__}:{str(e)[:160]}", None, e
     blob = json.dumps([r.to_json() for r in rs], sort_keys=True, default=repr)
-    blob = _ADDR.sub(r"\1*)", blob)              # repr() of pypdf objects carries id(reader): not a result
     return "OK:" + hashlib.sha256(blob.encode()).hexdigest(), (rs[0] if rs else None), None
 
 
@@ -700,7 +757,7 @@ def _observe(d):
     if not dataclasses.is_dataclass(obj) or not hasattr(obj, "to_json"):
         return f"RAW:{type(obj).__name__}:", None, None
     blob = json.dumps(obj.to_json(), sort_keys=True, default=repr)
-    return f"OK:{type(obj).__name__}:" + hashlib.sha256(_ADDR.sub(r"\1*)", blob).encode()).hexdigest(), obj, None
+    return f"OK:{type(obj).__name__}:" + hashlib.sha256(blob.encode()).hexdigest(), obj, None
 
 
 def _registry_state():
@@ -897,6 +954,81 @@ def _worker_stress(inp, out):
     Path(out).write_text(json.dumps(res))
 
 
+FAMILIES = {"ooxml": (".docx", ".docm", ".pptx", ".pptm"), "sheets": (".xlsx", ".xlsm", ".xls"),
+            "odf": (".odt", ".ods", ".odp", ".odg", ".odf"), "web": (".html", ".htm", ".mhtml", ".mht", ".epub"),
+            "legacy": (".doc", ".ppt", ".rtf"), "text": (".txt", ".md", ".csv", ".tsv", ".json"),
+            "mail": (".eml", ".msg", ".mbox"), "pdf": (".pdf",), "archive": (".zip", ".7z", ".tar", ".gz", ".tgz", ".bz2")}
+
+
+def _family(path):
+    """extractor family = formats that share helper modules (omml converter, ODF shared text builder, ...)"""
+    n = path.lower()
+    for fam, exts in FAMILIES.items():
+        if n.endswith(exts):
+            return fam
+    return "other"
+
+
+def _worker_conc(inp, out):
+    _quiet()
+    import threading
+    job = json.loads(Path(inp).read_text())
+    from .. import repo
+    repo.activate()
+    import sharepoint2text
+    ids = sorted(job["docs"], key=lambda d: (not d.startswith("gen:"), d))
+    # 1. in-flight twin: first extraction suspended after its first result, second one complete
+    twin = []
+    for d in ids:
+        g = None
+        try:
+            g = sharepoint2text.read_file(job["docs"][d])
+            r1 = next(iter(g))
+            r2 = next(iter(sharepoint2text.read_file(job["docs"][d])))
+            s1, s2 = (hashlib.sha256(json.dumps(r.to_json(), sort_keys=True, default=repr).encode()).hexdigest()
+                      for r in (r1, r2))
+            if s1 != s2:
+                twin.append((d, s1, s2))
+        except Exception:  # noqa: failing inputs are compared through their signature below
+            pass
+        finally:
+            if g is not None and hasattr(g, "close"):
+                g.close()
+    # 2. rounds of `threads` different documents each
+    n = job["threads"]
+    rounds = [ids[i:i + n] for i in range(0, len(ids), n)]
+    if len(rounds) > 1 and len(rounds[-1]) < 2:
+        rounds[-2] += rounds.pop()
+    if rounds and len(rounds[0]) == 1:
+        rounds[0] = rounds[0] * 2                      # a family with a single document: the same one twice
+    sigs, errors = [], []
+    old = sys.getswitchinterval()
+    sys.setswitchinterval(1e-6)
+    try:
+        for rno, members in enumerate(rounds):
+            bar = threading.Barrier(len(members))
+
+            def work(t, did):
+                try:
+                    for _ in range(job["reps"]):
+                        bar.wait(timeout=300)
+                        sigs.append((rno, t, did, _signature(job["docs"][did])[0]))
+                except BaseException as e:  # noqa
+                    errors.append(f"round {rno} thread {t} {did}: {e!r}")
+                    bar.abort()
+            ths = [threading.Thread(target=work, args=(t, d), daemon=True) for t, d in enumerate(members, 1)]
+            for th in ths:
+                th.start()
+            for th in ths:
+                th.join(timeout=600)
+            if any(th.is_alive() for th in ths):
+                errors.append(f"round {rno}: threads still alive after 600 s")
+                break
+    finally:
+        sys.setswitchinterval(old)
+    Path(out).write_text(json.dumps({"sigs": sigs, "twin": twin, "errors": errors, "rounds": rounds}))
+
+
 def _worker_aes(inp, out):
     _quiet()
     job = json.loads(Path(inp).read_text())
@@ -962,6 +1094,8 @@ if __name__ == "__main__":
         _worker_base(*sys.argv[2:5])
     elif cmd == "hist":
         _worker_hist(*sys.argv[2:6])
+    elif cmd == "conc":
+        _worker_conc(*sys.argv[2:4])
     elif cmd == "aes":
         _worker_aes(*sys.argv[2:4])
     elif cmd == "stress":
